@@ -9,6 +9,7 @@ import (
 	"os/exec"
 	"path/filepath"
 	"strings"
+	"sync/atomic"
 	"time"
 )
 
@@ -223,6 +224,7 @@ func runSolver(name string, file string, timeoutS int) SolverResult {
 	t0 := time.Now()
 	_ = cmd.Run()
 	secs := time.Since(t0).Seconds()
+	atomic.AddInt64(&statSolveNs, int64(time.Since(t0)))
 	s := out.String()
 	first := ""
 	for _, ln := range strings.Split(s, "\n") {
@@ -263,19 +265,39 @@ func solveOb(o *Obligation, qdir string, timeoutS int, thorough bool, expectSat 
 		all = append(all, r)
 		return r, all, full
 	}
-	ground := writeQuery(qdir, base+".ground", o.BuildQueryS(false, true, true, true))
-	g := runSolver("z3-new", ground, timeoutS)
+	tight := writeQuery(qdir, base+".tight", o.BuildQueryT(false, true, true, true, 1.0))
+	gt := runSolver("z3-new", tight, minInt(timeoutS, 1))
+	gt.Solver = "z3-new(ground,tight)"
+	all = append(all, gt)
+	if gt.Status == "unsat" && !thorough {
+		return gt, all, tight
+	}
+	lite := writeQuery(qdir, base+".lite", o.BuildQuery(false, true))
+	r := runSolver("z3-new", lite, minInt(timeoutS, 5))
+	r.Solver = "z3-new(lite)"
+	all = append(all, r)
+	if r.Status == "unsat" && !thorough {
+		return r, all, lite
+	}
+	ground := writeQuery(qdir, base+".ground", o.BuildQueryT(false, true, true, true, 2.0))
+	g := runSolver("z3-new", ground, minInt(timeoutS, 4))
 	g.Solver = "z3-new(ground)"
 	all = append(all, g)
 	if g.Status == "unsat" && !thorough {
 		return g, all, ground
 	}
-	lite := writeQuery(qdir, base+".lite", o.BuildQuery(false, true))
-	r := runSolver("z3-new", lite, timeoutS)
-	r.Solver = "z3-new(lite)"
-	all = append(all, r)
-	if r.Status == "unsat" && !thorough {
-		return r, all, lite
+	if gt.Status == "unsat" {
+		g = gt
+	}
+	if r.Status != "unsat" && r.Status != "sat" {
+		// give the lite query the full budget
+		r2 := runSolver("z3-new", lite, timeoutS)
+		r2.Solver = "z3-new(lite)"
+		all = append(all, r2)
+		if r2.Status == "unsat" && !thorough {
+			return r2, all, lite
+		}
+		r = r2
 	}
 	best := r
 	if g.Status == "unsat" {
@@ -336,6 +358,8 @@ func queryPath(dir, name string) string {
 	return filepath.Join(dir, safe+".smt2")
 }
 
+var statBuildNs, statSolveNs int64
+
 func writeQuery(dir, name string, body string) string {
 	safe := strings.NewReplacer("/", "_", " ", "_", "*", "p", "(", "", ")", "", ":", "_", "[", "_", "]", "_", "|", "_", "<", "lt", ">", "gt", "&", "a", "\"", "", "'", "", ",", "_", "!", "n", "=", "e", "{", "", "}", "", "#", "h").Replace(name)
 	if len(safe) > 180 {
@@ -344,4 +368,11 @@ func writeQuery(dir, name string, body string) string {
 	p := filepath.Join(dir, safe+".smt2")
 	_ = os.WriteFile(p, []byte(body), 0o644)
 	return p
+}
+
+func minInt(a, b int) int {
+	if a < b {
+		return a
+	}
+	return b
 }
